@@ -5,6 +5,8 @@
 #include <gudhi/graph_simplicial_complex.h>
 #include <gudhi/Rips_complex.h>
 #include <gudhi/distance_functions.h>
+#include <gudhi/Bitmap_cubical_complex.h>
+#include <gudhi/Bitmap_cubical_complex_base.h>
 #include <boost/graph/graph_traits.hpp>
 #include <limits>
 #include <map>
@@ -404,6 +406,9 @@ struct Exec {
         } else { r.skipped(); continue; }
       } else if (nm == "extend") {
         if constexpr (HAS_F) { if (m.empty()) { r.skipped(); continue; } check_extended(st); } else { r.skipped(); continue; }
+      } else if (nm == "cubical") {
+        // secondary workload of C03: the cell order of a cubical complex under the same sort seam (independent of the tree's option set)
+        if (cfg == "default" || cfg == "default_seq") check_cubical((uint64_t)op.arg(0), std::to_string(i)); else r.skipped();
       } else if (nm == "audit") {
         long flags = op.arg(1);
         audit_tree(st, m, (uint64_t)op.arg(0), flags & 1, "tree");
@@ -413,6 +418,32 @@ struct Exec {
       } else { r.skipped(); continue; }
       r.state(m.hash(HAS_F));
     }
+  }
+
+  void check_cubical(uint64_t seed, const std::string& tag) {
+    typedef Gudhi::cubical_complex::Bitmap_cubical_complex<Gudhi::cubical_complex::Bitmap_cubical_complex_base<double>> CC;
+    sim::Rng g(seed | 1);
+    int d = (int)g.range(1, 3); std::vector<unsigned> sizes; size_t top = 1; for (int k = 0; k < d; ++k) { unsigned sz = (unsigned)g.range(1, d == 3 ? 2 : 4); sizes.push_back(sz); top *= sz; }
+    int nvals = (int)g.range(1, 4); std::vector<double> vals; for (size_t k = 0; k < top; ++k) vals.push_back(0.5 * (double)g.below(nvals));  // heavy ties
+    CC cc(sizes, vals);
+    std::vector<size_t> ref;
+    for (int k = 0; k < 3; ++k) {
+#ifdef GUDHI_USE_TBB
+      sim_sort::state().seed = h2(seed, k);
+#endif
+      cc.initialize_filtration();
+      std::vector<size_t> seq; for (auto sh : cc.filtration_simplex_range()) seq.push_back(sh);
+      ST_REQ(seq.size() == cc.num_simplices(), "order-valid", "cubical filtration range has " + std::to_string(seq.size()) + " cells of " + std::to_string(cc.num_simplices()));
+      std::vector<long> posn(cc.num_simplices(), -1); double last = -1e300;
+      for (size_t q = 0; q < seq.size(); ++q) { ST_REQ(posn[seq[q]] < 0, "order-valid", "cubical filtration range lists a cell twice"); posn[seq[q]] = (long)q; ST_REQ(!(cc.filtration(seq[q]) < last), "order-valid", "cubical filtration range decreases in value"); last = cc.filtration(seq[q]); }
+      for (size_t q = 0; q < seq.size(); ++q) for (auto b : cc.boundary_simplex_range(seq[q])) ST_REQ(posn[b] < (long)q, "order-valid", "cubical cell " + std::to_string(seq[q]) + " comes before its face " + std::to_string(b));
+      if (k == 0) ref = seq; else ST_REQ(seq == ref, "order-det", "the cubical cell order depends on the sort schedule");
+      r.count("probe.cubical_orders");
+    }
+#ifdef GUDHI_USE_TBB
+    ST_REQ(sim_sort::state().swo_violations == 0, "swo", "the cubical comparator handed to the sort is not a strict weak order");
+#endif
+    std::string sq; for (size_t x : ref) sq += std::to_string(x) + ","; obs.add("cubical@" + tag, sq);
   }
 
   void check_extended(const ST& orig) {
@@ -551,6 +582,31 @@ struct Exec {
           compare_with(inc, c, std::string("incremental insert_edge_as_flag (") + (in_order ? "in filtration order" : "any order + make_filtration_non_decreasing") + ", dim_max " + std::to_string(dm) + ")");
           audit_tree(inc, c, seed, true, "flag tree");
           for (SH sh : added) (void)inc.filtration(sh);  // handles reported earlier are still dereferenceable (ASan)
+        }
+        if constexpr (LINK) {
+          // mixed route: part of the graph through insert_graph + expansion, the rest edge by edge into the same tree
+          sim::Rng mg(h2(seed, 9) | 1); Graph g1 = g; std::vector<Item> rest;
+          for (int a2 = 0; a2 < m.n; ++a2) for (int b2 = a2 + 1; b2 < m.n; ++b2) if (g1.ee[a2][b2] >= 0 && mg.chance(1, 2)) { rest.push_back({a2, b2, g1.ee[a2][b2]}); g1.ee[a2][b2] = -1; }
+          mg.shuffle(rest);
+          int dmx = dm < 0 ? m.n : dm;
+          if (dmx >= 1) {
+            ST t; t.insert_graph(adversarial(g1, seed + 11)); t.expansion(dmx);
+            std::vector<SH> add2; Graph cur = g1; bool ordered = true; double lastf = -1;
+            for (auto& e : g1.ee) for (double f : e) lastf = std::max(lastf, f);
+            for (auto& it : rest) {
+              Complex before = clique(cur, std::max(dmx, 1)); cur.ee[it.a][it.b] = it.f; Complex after = clique(cur, std::max(dmx, 1));
+              if (it.f < lastf) ordered = false;
+              lastf = std::max(lastf, it.f);
+              size_t k0 = add2.size(); t.insert_edge_as_flag(lab[it.a], lab[it.b], (FV)(HAS_F ? it.f : 0), dm, add2);
+              std::vector<Mask> delta; for (size_t k = k0; k < add2.size(); ++k) delta.push_back(mask_of(t, add2[k])); std::sort(delta.begin(), delta.end());
+              std::vector<Mask> exp; for (Mask x : after.simplices()) if (!before.has(x)) exp.push_back(x);
+              ST_REQ(delta == exp, "delta", "after insert_graph + expansion(" + std::to_string(dmx) + "), insert_edge_as_flag(" + m.str((1u << it.a) | (1u << it.b)) + ") reports " + std::to_string(delta.size()) + " new simplices, expected " + std::to_string(exp.size()));
+            }
+            if (!ordered) { if constexpr (HAS_F) t.make_filtration_non_decreasing(); }
+            Complex cm = clique(g, std::max(dmx, 1));
+            compare_with(t, cm, "insert_graph + expansion(" + std::to_string(dmx) + ") followed by insert_edge_as_flag of the remaining edges");
+            r.count("probe.flag_mixed_route");
+          }
         }
         Complex cd = clique(g, std::max(d, 1));
         { ST a; a.insert_graph(adversarial(g, seed)); a.expansion(d); compare_with(a, cd, "insert_graph + expansion(" + std::to_string(d) + ")"); audit_tree(a, cd, seed + 1, true, "expanded tree"); audit_order(a, cd, seed, 2, "a"); }
